@@ -187,15 +187,20 @@ AdaptiveLimit(d, m) ==
   IN  IF mb < 50 THEN 50 ELSE IF mb > 50000 THEN 50000 ELSE mb
 
 \* the verdict of validate_decompression_operation, in the order of the code
-PreCheck(m, d, n) ==
+\* sess = bytes already decompressed in the SessionTracker the call is given (check_session_limits_with_addition)
+PreCheckS(m, d, n, sess) ==
   IF d = 0 THEN "err:Compression"                                      \* "Empty compressed data"
-  ELSE IF n > MaxSession THEN "err:ResourceExhaustion"
+  ELSE IF sess + n > MaxSession THEN "err:ResourceExhaustion"
   ELSE IF n > MaxDecompressed THEN "err:ResourceExhaustion"
   ELSE IF n > 0 /\ n \div d > MaxRatio THEN "err:CompressionBomb"        \* validate_file_bounds: BEFORE the adaptive table
   ELSE IF n > 0 /\ n \div d > AdaptiveLimit(d, m) THEN "err:CompressionBomb"
   ELSE IF d < 100 /\ n > 10485760 THEN "err:MaliciousContent"
   ELSE IF m > 128 /\ n > 0 /\ n \div d > AdaptiveLimit(d, m) \div 2 THEN "err:CompressionBomb"
   ELSE "ok"
+
+\* decompress() (the legacy entry point used for every sector on the archive read path) creates its own SessionTracker:
+\* the session volume it sees is 0 whatever the process decompressed before
+PreCheck(m, d, n) == PreCheckS(m, d, n, 0)
 
 MonitorMax(n) == IF n < MaxDecompressed THEN n ELSE MaxDecompressed
 \* after the pipeline: monitor.check_progress(actual), then validate_decompression_result(n, actual, 10)
